@@ -267,6 +267,11 @@ def run(prog, ctx=None):
 
         def hook(an, b, i, el, st):
             facts = set(st.get(PK) or ())
+            # a private-making function hands its buffer out for writing: what it returns is private
+            if el.get("k") == "ret" and el.get("e") is not None and f.name in PRIVATE_MAKERS and cval(el["e"]) is None and is_buffer_ptr(f, el["e"].get("t")):
+                r = root_of(el["e"])
+                if r in bufs:
+                    need(an, st, r, el, False, "return of the handle's buffer to a caller that will write")
             # STALE: dereference of a buffer pointer loaded before a call that may have replaced the handle's buffer
             for n in walk_own(el):
                 p = None
